@@ -12,7 +12,8 @@
                        (wf s live: log_run [] (log s) = Some live, all ids < next s, no id twice)
      AInv t s      :=  Inv rank L I (erase_tree t) /\ owns s (a_self t :: pages (a_root t))
    i.e. the erased tree satisfies the C01 invariant and the live blocks are exactly the tree struct and the pages
-   of the tree, all of them aligned blocks.  (L, I) = (LEAF_VALS, INODE_VALS) with I = L / 2 and 3 <= I as in C01.
+   of the tree, all of them aligned blocks.  (L, I) = (LEAF_VALS, INODE_VALS) with I = L / 2 and 3 <= I as in C01;
+   H = ZIX_BTREE_MAX_HEIGHT (any value: an insert refused with OVERFLOW makes no request and changes nothing).
    The tie to src/btree.c is differential: case flag 'a' of harness/drv_c01.c prints the allocator trace
    (A<serial>:a:<size> / F<serial>:<entry>) after every call and tools/check.py C01 compares it with this model's log. *)
 From Coq Require Import ZArith List Bool Arith.
@@ -23,16 +24,16 @@ Import ListNotations.
 (* (a) forgetting the page ids gives the model of C01/C02, call by call: same status, same out value, same
    comparator log, same consumption of the allocation script, and the erased result tree is the plain result *)
 Theorem btree_pages_erasure :
-  forall (elt : Type) (rank : elt -> Z) (dflt : elt) (L I : nat) (s : ast) (t : atree elt) (e : elt),
-    (let '(st, t', s', lg) := ainsert_op rank dflt L I s t e in
-     insert rank dflt L I (oracle s) (erase_tree t) e = (st, erase_tree t', oracle s', lg)) /\
+  forall (elt : Type) (rank : elt -> Z) (dflt : elt) (L I H : nat) (s : ast) (t : atree elt) (e : elt),
+    (let '(st, t', s', lg) := ainsert_op rank dflt L I H s t e in
+     insert rank dflt L I H (oracle s) (erase_tree t) e = (st, erase_tree t', oracle s', lg)) /\
     (let '(st, out, t', s', lg) := aremove_op rank dflt L I s t e in
      exists it, remove rank dflt L I (erase_tree t) e = (st, out, erase_tree t', it, lg) /\ oracle s' = oracle s) /\
     (forall d, fst (clear (erase_tree t) d) = erase_tree (fst (aclear_op s t))) /\
     match anew_op (elt := elt) s with (Some t0, _) => erase_tree t0 = empty_tree | (None, _) => True end.
 Proof.
-  intros elt rank dflt L I s t e. split; [|split; [|split]].
-  - exact (erase_insert elt rank dflt L I s t e).
+  intros elt rank dflt L I H s t e. split; [|split; [|split]].
+  - exact (erase_insert elt rank dflt L I H s t e).
   - exact (erase_remove elt rank dflt L I s t e).
   - intros d. exact (erase_clear elt rank dflt L I s t d).
   - exact (erase_new elt rank dflt L I s).
@@ -42,9 +43,9 @@ Print Assumptions btree_pages_erasure.
 (* ... and history by history: the erased instrumented run is the run of Properties_C01 (so btree_inv_reachable,
    btree_history_refines, ... speak about the instrumented tree) *)
 Theorem btree_pages_erasure_history :
-  forall (elt : Type) (rank : elt -> Z) (dflt : elt) (L I : nat) (o0 : list bool) (ops : list (op elt)),
+  forall (elt : Type) (rank : elt -> Z) (dflt : elt) (L I H : nat) (o0 : list bool) (ops : list (op elt)),
     match anew_op (elt := elt) (ast0 o0) with
-    | (Some t, s) => erase_tree (fst (fold_left (astep elt rank dflt L I) ops (t, s))) = run rank dflt L I ops
+    | (Some t, s) => erase_tree (fst (fold_left (astep elt rank dflt L I H) ops (t, s))) = run rank dflt L I H ops
     | (None, _) => True
     end.
 Proof. exact erase_history. Qed.
@@ -61,7 +62,7 @@ Theorem btree_pages_new :
     end.
 Proof.
   intros elt rank dflt L I HI HI3 o.
-  pose proof (anew_spec elt rank dflt L I HI HI3 o) as H.
+  pose proof (anew_spec elt rank dflt L I HI HI3 0 o) as H.
   destruct (anew_op (elt := elt) (ast0 o)) as [[t|] s]; [exact H|].
   split; [exact H|exact (owns_log_ok s [] H)].
 Qed.
@@ -72,17 +73,17 @@ Print Assumptions btree_pages_new.
    refused half-way down after earlier splits; remove incl. every merge and the root collapse; clear *)
 Theorem btree_pages_invariant_calls :
   forall (elt : Type) (rank : elt -> Z) (dflt : elt) (L I : nat), I = L / 2 -> 3 <= I ->
-  forall (t : atree elt) (s : ast) (e : elt), AInv elt rank L I t s ->
-    (let '(st, t', s', lg) := ainsert_op rank dflt L I s t e in AInv elt rank L I t' s') /\
+  forall (H : nat) (t : atree elt) (s : ast) (e : elt), AInv elt rank L I t s ->
+    (let '(st, t', s', lg) := ainsert_op rank dflt L I H s t e in AInv elt rank L I t' s') /\
     (let '(st, out, t', s', lg) := aremove_op rank dflt L I s t e in AInv elt rank L I t' s') /\
     (let '(t', s') := aclear_op s t in AInv elt rank L I t' s') /\
     log_ok (log s) (a_self t :: pages (a_root t)) = true.
 Proof.
-  intros elt rank dflt L I HI HI3 t s e H. split; [|split; [|split]].
-  - exact (ainsert_inv elt rank dflt L I HI HI3 t s e H).
-  - exact (aremove_inv elt rank dflt L I HI HI3 t s e H).
-  - exact (aclear_inv elt rank dflt L I HI HI3 t s H).
-  - destruct H as [_ H]. exact (owns_log_ok s _ H).
+  intros elt rank dflt L I HI HI3 H t s e A. split; [|split; [|split]].
+  - exact (ainsert_inv elt rank dflt L I HI HI3 H t s e A).
+  - exact (aremove_inv elt rank dflt L I HI HI3 H t s e A).
+  - exact (aclear_inv elt rank dflt L I HI HI3 H t s A).
+  - destruct A as [_ A]. exact (owns_log_ok s _ A).
 Qed.
 Print Assumptions btree_pages_invariant_calls.
 
@@ -93,7 +94,7 @@ Theorem btree_pages_free :
     owns (afree_op s t) [] /\ log_ok (log (afree_op s t)) [] = true.
 Proof.
   intros elt rank dflt L I HI HI3 t s H.
-  pose proof (afree_spec elt rank dflt L I HI HI3 t s H) as F. split; [exact F|exact (owns_log_ok _ _ F)].
+  pose proof (afree_spec elt rank dflt L I HI HI3 0 t s H) as F. split; [exact F|exact (owns_log_ok _ _ F)].
 Qed.
 Print Assumptions btree_pages_free.
 
@@ -102,11 +103,11 @@ Print Assumptions btree_pages_free.
    without repetition, and after zix_btree_free the log is protocol-correct with nothing outstanding *)
 Theorem btree_pages_history :
   forall (elt : Type) (rank : elt -> Z) (dflt : elt) (L I : nat), I = L / 2 -> 3 <= I ->
-  forall (o0 : list bool) (ops : list (op elt)),
+  forall (H : nat) (o0 : list bool) (ops : list (op elt)),
     match anew_op (elt := elt) (ast0 o0) with
     | (None, s) => log_ok (log s) [] = true
     | (Some t, s) =>
-        let '(t', s') := fold_left (astep elt rank dflt L I) ops (t, s) in
+        let '(t', s') := fold_left (astep elt rank dflt L I H) ops (t, s) in
         AInv elt rank L I t' s' /\
         log_ok (log s') (a_self t' :: pages (a_root t')) = true /\
         NoDup (a_self t' :: pages (a_root t')) /\
@@ -126,7 +127,7 @@ Example pages_example :
                                         ORemove 1%Z; ORemove 2%Z; ORemove 3%Z] in
   match anew_op (elt := Z) (ast0 []) with
   | (Some t, s) =>
-      let '(t', s') := fold_left (astep Z (fun x => x) 0%Z 6 3) ops (t, s) in
+      let '(t', s') := fold_left (astep Z (fun x => x) 0%Z 6 3 6) ops (t, s) in
       log (afree_op s' t') =
         [EAlloc Caller Aligned 0; EAlloc Caller Aligned 1;
          EAlloc Caller Aligned 2; EFree Caller Aligned 2;
